@@ -29,7 +29,7 @@ func c16values(c *Ctx) {
 	}
 	r.Floor("ROUND", "scaled budget computations", n, 2)
 
-	r.Rule("UNSIGNED(no subtraction on a cap): in EvictionLimiter no subtraction has an unsigned result (count+1 > cap is total; count > cap-1 wraps around for a cap of zero and never refuses)")
+	r.Rule("UNSIGNED(no subtraction on a cap): in EvictionLimiter no subtraction has an unsigned result unless a dominating test says minuend >= subtrahend (count+1 > cap is total; count > cap-1 wraps around for a cap of zero and never refuses)")
 	n = 0
 	nCmp := 0
 	for _, fn := range c.PkgFuncs("pkg/descheduler/evictions") {
@@ -44,6 +44,21 @@ func c16values(c *Ctx) {
 				}
 				bt, isB := bo.Type().Underlying().(*types.Basic)
 				if bo.Op == token.SUB && isB && bt.Info()&types.IsUnsigned != 0 {
+					// a difference that is known not to wrap (a - b under a >= b / a > b) is fine
+					same := func(w ssa.Value) func(ssa.Value) bool {
+						return func(v ssa.Value) bool {
+							if v == w || sameSource(v, w) {
+								return true
+							}
+							kv, okV := constIntOf(v)
+							kw, okW := constIntOf(w)
+							return okV && okW && kv == kw
+						}
+					}
+					gs := an.Guards(bo)
+					if an.Holds(gs, token.GEQ, same(bo.X), same(bo.Y)) || an.Holds(gs, token.GTR, same(bo.X), same(bo.Y)) {
+						continue
+					}
 					n++
 					r.Fail("UNSIGNED", sprintf("%s/sub#%d", fkey(fn), n), c.InstrPos(bo), "an unsigned subtraction on a counter or cap: for a cap of zero it wraps to the maximum value and the cap is never reached")
 				}
